@@ -686,6 +686,10 @@ def run(prog, rep, tier):
     rep.rule('SLICE-neg-zero', 'a negative slice bound -E needs E != 0 at that point')
     if check_neg_zero_slices(prog, rep) < 3:
         raise AnalysisError('SLICE-neg-zero: the slices of _tensordot_transpose_axes / _tensordot_worker not found')
+    rep.rule('BLOCKS-permute-compare', 'a tensor permuted with Array.permute (bunched leg) is '
+             'rewritten in the blocks of its partner before a block-by-block leg comparison')
+    if check_permute_compare(prog, rep) < 1:
+        raise AnalysisError('BLOCKS-permute-compare: _advanced_setitem_npc not recognised')
     from ..flow import check_carried_flags
     rep.rule('LOOP-carried-flag', 'a flag set under a test inside a loop body and read there is '
              're-initialised per iteration')
@@ -806,4 +810,67 @@ def check_neg_zero_slices(prog, rep):
                                        'empty' if b is sl.upper else 'the whole sequence',
                                        'the whole sequence' if b is sl.upper else 'empty', text),
                                       sl.lineno)
+    return n
+
+
+# ------------------------------------------------------------------ BLOCKS-permute-compare
+def check_permute_compare(prog, rep):
+    """BLOCKS-permute-compare: Array.permute() returns a tensor whose permuted leg is BUNCHED (fact
+    read off its body: the new leg is `.bunch()`ed). A leg of an arbitrary operand keeps its own
+    block structure (possibly several blocks of equal charge). Comparing the two with the
+    block-by-block tests `test_contractible` / `test_equal` therefore rejects operands whose charges
+    agree index by index; between `v = x.permute(..)` and such a comparison of `v.legs` the tensor
+    must be rewritten in the blocks of its partner (`from_ndarray(.., legs, ..)`)."""
+    m = prog.module(NPC)
+    perm = m.func('Array.permute')
+    bunches = any(isinstance(c, ast.Call) and isinstance(c.func, ast.Attribute) and
+                  c.func.attr == 'bunch' for c in ast.walk(perm))
+    rep.instance('BLOCKS-permute-compare', {'fact': 'Array.permute bunches the new leg',
+                                            'holds': bunches})
+    n = 0
+    if not bunches:
+        return 1
+    for q, f in m.functions.items():
+        perms = [st for st in stmts_of(f) if isinstance(st, ast.Assign) and isinstance(
+            st.targets[0], ast.Name) and isinstance(st.value, ast.Call) and isinstance(
+                st.value.func, ast.Attribute) and st.value.func.attr == 'permute']
+        for st in perms:
+            v = st.targets[0].id
+            cmps = []
+            for c in ast.walk(f):
+                if not (isinstance(c, ast.Call) and isinstance(c.func, ast.Attribute) and
+                        c.func.attr in ('test_contractible', 'test_equal') and
+                        c.lineno > st.lineno):
+                    continue
+                # the legs compared: directly `v.legs[..]` or loop variables of zip(.., v.legs)
+                names = {x.id for x in ast.walk(c) if isinstance(x, ast.Name)}
+                direct = any(unparse(x).startswith(v + '.legs') for x in ast.walk(c)
+                             if isinstance(x, (ast.Attribute, ast.Subscript)))
+                via_loop = False
+                for lp in ast.walk(f):
+                    if isinstance(lp, ast.For) and any(sub is c for sub in ast.walk(lp)) and \
+                            (v + '.legs') in unparse(lp.iter) and names & {
+                                x.id for x in ast.walk(lp.target) if isinstance(x, ast.Name)}:
+                        via_loop = True
+                if direct or via_loop:
+                    cmps.append(c)
+            if not cmps:
+                continue
+            n += 1
+            first = min(c.lineno for c in cmps)
+            reblock = [a for a in stmts_of(f) if isinstance(a, ast.Assign) and any(
+                isinstance(t, ast.Name) and t.id == v for t in a.targets) and
+                st.lineno < a.lineno < first and any(
+                    isinstance(c, ast.Call) and (call_name(c) or '').split('.')[-1] ==
+                    'from_ndarray' for c in ast.walk(a.value))]
+            rep.instance('BLOCKS-permute-compare', {'function': q, 'permuted': v,
+                                                    'reblocked_before_compare': bool(reblock)})
+            if not reblock:
+                rep.violation('BLOCKS-permute-compare', m, q, 'bunched-vs-blocks:' + v,
+                              '`%s` (leg bunched by permute) is compared block by block with the '
+                              'legs of its partner at line %d without being rewritten in the '
+                              'partner\'s blocks: operands whose leg has several blocks of equal '
+                              'charge are rejected ("incompatible LegCharge") although the '
+                              'charges agree index by index' % (key_text(st)[:60], first),
+                              st.lineno)
     return n
